@@ -302,7 +302,25 @@ impl ASN1Type {
         match self {
             ASN1Type::ChoiceSelectionType(c) => {
                 if let Some(ToplevelDefinition::Type(parent)) = tlds.get(&c.choice_name) {
-                    *self = parent.ty.clone();
+                    // X.680 30: a selection type denotes the type of the selected alternative
+                    match &parent.ty {
+                        ASN1Type::Choice(choice) => {
+                            let selected = choice
+                                .options
+                                .iter()
+                                .find(|o| o.name == c.selected_option)
+                                .ok_or_else(|| {
+                                    grammar_error!(
+                                        LinkerError,
+                                        "Choice {} has no alternative {}.",
+                                        c.choice_name,
+                                        c.selected_option
+                                    )
+                                })?;
+                            *self = selected.ty.clone();
+                        }
+                        _ => *self = parent.ty.clone(),
+                    }
                     Ok(())
                 } else {
                     Err(grammar_error!(
